@@ -236,6 +236,7 @@ class Parent(AbstractParent):
         lifted_blocks = (
             self.parent.location.relative_interval_to_parent_location(block.start, block.end, block.strand)
             for block in self.location.blocks
+            if len(block) > 0
         )
         lifted_blocks_union = reduce(
             lambda location1, location2: location1.union_preserve_overlaps(location2), lifted_blocks
